@@ -621,7 +621,7 @@ MANIFEST = {
              "category from the start id on, each once, in order; individual access returns the single object; for "
              "other starts bound and termination; the client decoder inverts the encoder. Refuted and delimited: a "
              "245-byte object (the same empty page forever; 7+2+245 > 253 shows no implementation could return it), "
-             "read code 0 (KeyError instead of exception 03). Extended model for list-valued entries and str values "
+             "(read code 0: repaired in /repo 9a34217, now a positive theorem: every code outside 1..4 gets exception 03, execute never raises). Extended model for list-valued entries and str values "
              "(len vs encoded length as two fields): conservative over the base model; a split list is re-sent from "
              "its first item / loops forever, non-ASCII text breaks the 253-byte bound (both refuted by witness), the "
              "bound holds when len = encoded length. Correspondence: whole request chains through the real "
